@@ -406,6 +406,7 @@ Proof.
   destruct (validate_binding (w_cfg w) c (t_bind r) no_opts) eqn:Ev; [discriminate|].
   destruct (negb (are_scopes_allowed (c_scopes c) (cf_scopes (w_cfg w)) (t_scope r))); [discriminate|].
   destruct (negb (validate_resources (w_cfg w) (cf_resources (w_cfg w)) (t_resources r))); [discriminate|].
+  destruct (negb (validate_details_types (w_cfg w) (t_auth_details r))); [discriminate|].
   destruct (hg_result (t_hg r)); [discriminate|].
   destruct (make_token n c GClientCredentials) as [tv tid].
   cbn in H. inversion H; subst st' t; clear H.
@@ -438,6 +439,7 @@ Proof.
   destruct (negb (seqb (p_redirect (a_params s)) (t_redirect r))); [discriminate|].
   destruct (validate_pkce (w_cfg w) (t_verifier r) s); [discriminate|].
   destruct (negb (validate_resources (w_cfg w) (a_granted_res s) (t_resources r))); [discriminate|].
+  destruct (negb (validate_details (w_cfg w) (a_granted_details s) (t_auth_details r))); [discriminate|].
   destruct (negb (contains_all_scopes (a_granted s) (t_scope r))); [discriminate|].
   destruct (hg_result (t_hg r)); [discriminate|].
   destruct (make_token n c GAuthorizationCode) as [tv tid].
@@ -465,6 +467,7 @@ Proof.
    destruct (validate_binding (w_cfg w) c (t_bind r) no_opts) eqn:Ev; [discriminate|];
    destruct (t_ba r); cbn in H; try discriminate;
    destruct (negb (validate_resources (w_cfg w) (a_granted_res s) (t_resources r))); [discriminate|];
+   destruct (negb (validate_details (w_cfg w) (a_granted_details s) (t_auth_details r))); [discriminate|];
    destruct (negb (contains_all_scopes (a_granted s) (t_scope r))); [discriminate|];
    destruct (hg_result (t_hg r)); [discriminate|];
    destruct (make_token n c GCiba) as [tv tid];
@@ -513,7 +516,8 @@ Proof.
   destruct (validate_binding (w_cfg w) c (t_bind r) no_opts) eqn:Ev; [discriminate|].
   destruct (t_assertion r) as [| |sub]; try discriminate;
   (destruct (negb (are_scopes_allowed (c_scopes c) (cf_scopes (w_cfg w)) (t_scope r))); [discriminate|];
-   destruct (negb (validate_resources (w_cfg w) (cf_resources (w_cfg w)) (t_resources r))); [discriminate|]);
+   destruct (negb (validate_resources (w_cfg w) (cf_resources (w_cfg w)) (t_resources r))); [discriminate|];
+   destruct (negb (validate_details_types (w_cfg w) (t_auth_details r))); [discriminate|]);
   try discriminate.
   destruct (hg_result (t_hg r)); [discriminate|].
   destruct (make_token n c GJwtBearer) as [tv tid].
@@ -731,6 +735,7 @@ Proof.
   destruct (refresh_binding (w_cfg w) c (t_bind r) g) eqn:Eb; [discriminate|].
   destruct (negb (contains_all_scopes (g_granted g) (t_scope r))); [discriminate|].
   destruct (negb (validate_resources (w_cfg w) (g_granted_res g) (t_resources r))); [discriminate|].
+  destruct (negb (validate_details (w_cfg w) (g_granted_details g) (t_auth_details r))); [discriminate|].
   destruct (hg_result (t_hg r)); [discriminate|].
   destruct (make_token n c GRefreshToken) as [tv tid].
   cbn in H. inversion H; subst st' t; clear H. cbn.
@@ -776,17 +781,17 @@ Definition ex_cfg : config :=
   | Some c => c | None => base_config POpenID end.
 Definition ex_public : client :=
   mkClient 3 true [GAuthorizationCode; GRefreshToken] ["code"] ["https://c3.example/cb"] "openid profile"
-           CibaNone false false false false true true false 0 false.
+           CibaNone false false false false true true false 0 false None.
 Definition ex_conf : client :=
   mkClient 1 false [GAuthorizationCode; GRefreshToken; GClientCredentials] ["code"] ["https://c1.example/cb"] "openid email"
-           CibaNone false false false false false false false 0 false.
+           CibaNone false false false false false false false 0 false None.
 Definition ex_world : world := mkWorld ex_cfg [ex_public; ex_conf].
 (* a grant bound to ex_key and ex_cert, and a session whose code announces both *)
 Definition ex_grant : gsession :=
-  mkGSession (mint 0 KGrantId) ex_at ex_rt 300%Z 1000%Z 0 GAuthorizationCode "alice" 3 "openid profile" "openid profile" ex_key ex_cert [] [].
+  mkGSession (mint 0 KGrantId) ex_at ex_rt 300%Z 1000%Z 0 GAuthorizationCode "alice" 3 "openid profile" "openid profile" ex_key ex_cert [] [] [] [].
 Definition ex_session : asession :=
   mkASession (mint 1 KSessId) 3 "alice" 0 0 0 ex_code "openid profile" 0 ex_cert 60%Z 0 ""
-    (mkParams 0 "https://c3.example/cb" "" "code" "openid profile" "" "" PkEmpty "" ex_key "" 0 "" []) [].
+    (mkParams 0 "https://c3.example/cb" "" "code" "openid profile" "" "" PkEmpty "" ex_key "" 0 "" [] None) [] [].
 Definition ex_store : store := mkStore [] [ex_session] [ex_grant].
 Definition ex_treq (cr : cred) (b : bind_in) : treq :=
-  mkTReq cr b "" ex_code "https://c3.example/cb" ex_rt PkEmpty 0 HgOk BaApprove [] AsNone.
+  mkTReq cr b "" ex_code "https://c3.example/cb" ex_rt PkEmpty 0 HgOk BaApprove [] AsNone None.
